@@ -194,10 +194,30 @@ def run(ctx):
                                     own_streams.append(stream2)
                                 before2 = open_fds(tmp)      # with the caller's second stream (if any) already open
                                 try:
+                                    suspended = []
                                     with T.open(stream2 if stream2 is not None else p) as g:
                                         inside = open_fds(tmp)
+                                        # chunk iterators started inside the block and left unexhausted, still referenced after it
+                                        for mk in ([g.data_chunks] + [c2.data_chunks for g2 in g.groups() for c2 in g2.channels()][:1]):
+                                            it = mk()
+                                            try:
+                                                next(it)
+                                                suspended.append(it)
+                                            except Exception:
+                                                pass
+                                    stats["steps"] += 1
                                     if open_fds(tmp) != before2:
-                                        viol("after the with-block of TdmsFile.open descriptors remain open: %s" % open_fds(tmp), **ctxinfo)
+                                        viol("after the with-block of TdmsFile.open descriptors remain open%s: %s" % (
+                                            " (%d chunk iterators were started inside the block and are still referenced)" % len(suspended) if suspended else "", open_fds(tmp)), **ctxinfo)
+                                    for it in suspended:
+                                        try:
+                                            nxt = next(it, None)
+                                        except Exception:
+                                            continue
+                                        # (an iterator over the CALLER's stream may go on delivering correct data: that stream is still open)
+                                        if nxt is not None and stream2 is None:
+                                            viol("a chunk iterator started inside the with-block delivered another chunk after the block had closed the file", **ctxinfo)
+                                    del suspended
                                     if stream2 is not None and stream2.closed:
                                         viol("the with-block closed the caller's stream", **ctxinfo)
                                 except Exception:
